@@ -5,7 +5,7 @@
    later duplicates win, maps merge, null empties a map), so [k_attrs k] IS
    "the attributes that appear in the payload's attributes object". *)
 From JV Require Import Model.Base Model.GoTime Gen.TypeGo Model.Schema Model.Value
-  Model.Json Model.SoftRes Model.Unmarshal Proofs.C14Facts Proofs.C13Facts Proofs.C13Rels.
+  Model.Json Model.SoftRes Model.Wrapper Model.Resource Model.Unmarshal Proofs.C14Facts Proofs.SoftFacts Proofs.C13Facts Proofs.C13Rels Proofs.C13Values.
 
 (* accepted by partial unmarshaling iff accepted by full unmarshaling (and a
    panic on one side is a panic on the other); proved for schemas of soft
@@ -50,8 +50,17 @@ Theorem C13_rels_exact : forall e s j p,
 Proof. exact partial_rels_exact. Qed.
 Print Assumptions C13_rels_exact.
 
-(* NOT PROVED here (correspondence + oracle only): "each with the value full
-   unmarshaling gives it". *)
+(* ... each with the value full unmarshaling gives it (schemas of soft types
+   whose type for the payload is well formed: unique names, attribute and
+   relationship names disjoint, no field called id) *)
+Theorem C13_values_agree : forall e s j p r,
+  sch_wrapped s = [] ->
+  (forall k, dec_resske j = Some k -> wf_res_type (get_type (sch_schema s) (k_type k))) ->
+  unmarshal_partial e s j = Ok p -> unmarshal_resource e s j = Ok (RSoft r) ->
+  soft_get p "id" = soft_get r "id" /\
+  forall f, is_field (s_type p) f -> soft_get p f = soft_get r f.
+Proof. exact partial_values_agree. Qed.
+Print Assumptions C13_values_agree.
 
 Example c13_example :
   let e := tbl_env [] [] [] [] in
